@@ -1,5 +1,6 @@
 import AlgoVerif.Proofs.C16Powerset
 import AlgoVerif.Spec.C16
+import AlgoVerif.Proofs.C16Count
 /-!
 # C16 helper lemmas, part 6: `Partitions`
 
@@ -241,21 +242,99 @@ theorem add_partition {Ps : MSet (MSet (MSet α))} (h : WF2 Ps) (himpl : Ps.impl
     {Q : MSet (MSet α)} (hQ : WF1 Q) :
     ∃ Ps', Ps.add [Q] = .ok Ps' ∧ WF2 Ps' ∧ Ps'.impl = Ps.impl ∧
       (∀ Y ∈ Ps.members, Y ∈ Ps'.members) ∧ (∀ Y ∈ Ps'.members, Y ∈ Ps.members ∨ Y = Q) ∧
-      MemR FamEq Q Ps'.members := by
+      MemR FamEq Q Ps'.members ∧
+      ((∀ Y ∈ Ps.members, ¬ FamEq Y Q) → Ps'.members = Ps.members ++ [Q]) := by
   obtain ⟨Ps', h₁, hw, hi, hcase⟩ := MSet.add1_spec famEq_equivalence h hQ
   refine ⟨Ps', by rw [MSet.add_singleton]; exact h₁, hw, hi, ?_⟩
   rcases hcase with ⟨hm, rfl⟩ | ⟨_, l₁, l₂, hs, hs', hl⟩
-  · exact ⟨fun _ h => h, fun _ h => .inl h, hm⟩
+  · refine ⟨fun _ h => h, fun _ h => .inl h, hm, fun hnew => ?_⟩
+    obtain ⟨Y, hY, hYQ⟩ := hm
+    exact absurd hYQ (hnew Y hY)
   · have : l₂ = [] := hl (by rw [himpl]; rfl)
     subst this
     simp only [List.append_nil] at hs
     subst hs
     refine ⟨fun Y hY => by rw [hs']; exact List.mem_append_left _ hY, fun Y hY => ?_,
-      ⟨Q, by rw [hs']; simp, famEq_equivalence.refl Q⟩⟩
+      ⟨Q, by rw [hs']; simp, famEq_equivalence.refl Q⟩, fun _ => hs'⟩
     rw [hs'] at hY
     rcases List.mem_append.1 hY with hY | hY
     · exact .inl hY
     · simp at hY; exact .inr hY
+
+/-! ### what is needed to count: no `Ps.Add(Q)` of the two loops meets a partition that is already there -/
+
+/-- "in the same block" for a list of blocks (`SameBlock P` is `SameBlockOf P.members`) -/
+def SameBlockOf (l : List (MSet α)) (x y : α) : Prop := ∃ b ∈ l, x ∈ b.members ∧ y ∈ b.members
+
+theorem sameBlockOf_perm {l₁ l₂ : List (MSet α)} (hp : l₁.Perm l₂) (x y : α) :
+    SameBlockOf l₁ x y ↔ SameBlockOf l₂ x y :=
+  ⟨fun ⟨b, hb, h⟩ => ⟨b, hp.subset hb, h⟩, fun ⟨b, hb, h⟩ => ⟨b, hp.symm.subset hb, h⟩⟩
+
+/-- with `m0` taken out, the partition object `Y` consists of the blocks `L` -/
+def RestrIs (m0 : α) (Y : MSet (MSet α)) (L : List (MSet α)) : Prop :=
+  ∀ x y, (SameBlock Y x y ∧ x ≠ m0 ∧ y ≠ m0) ↔ SameBlockOf L x y
+
+theorem RestrIs.famEq {m0 : α} {Y Q : MSet (MSet α)} {L : List (MSet α)} (h : FamEq Y Q) (hQ : RestrIs m0 Q L) :
+    RestrIs m0 Y L := by
+  intro x y
+  rw [h.sameBlock x y]
+  exact hQ x y
+
+theorem RestrIs.perm {m0 : α} {Y : MSet (MSet α)} {L L' : List (MSet α)} (hp : L.Perm L') (h : RestrIs m0 Y L) :
+    RestrIs m0 Y L' := fun x y => (h x y).trans (sameBlockOf_perm hp x y)
+
+/-- two partition objects of the same set inducing the same relation consist of the same blocks -/
+theorem famEq_of_sameBlock {s : MSet α} {P Q : MSet (MSet α)} (hP : IsPart s P) (hQ : IsPart s Q)
+    (h : ∀ x y, SameBlock P x y ↔ SameBlock Q x y) : FamEq P Q := by
+  have key : ∀ {P Q : MSet (MSet α)}, IsPart s P → IsPart s Q → (∀ x y, SameBlock P x y ↔ SameBlock Q x y) →
+      SubR SetEq P.members Q.members := by
+    intro P Q hP hQ h b hb
+    obtain ⟨x, hx⟩ := List.exists_mem_of_ne_nil _ (hP.nonempty b hb)
+    obtain ⟨c, hc, hxc⟩ := (hQ.cover x).1 ((hP.cover x).2 ⟨b, hb, hx⟩)
+    refine ⟨c, hc, fun y => ?_⟩
+    constructor
+    · intro hy
+      obtain ⟨b', hb', hxb', hyb'⟩ := (h x y).2 ⟨c, hc, hxc, hy⟩
+      rw [hP.block_unique hb hb' hx hxb']
+      exact hyb'
+    · intro hy
+      obtain ⟨c', hc', hxc', hyc'⟩ := (h x y).1 ⟨b, hb, hx, hy⟩
+      rw [hQ.block_unique hc hc' hxc hxc']
+      exact hyc'
+  exact ⟨key hP hQ h, key hQ hP (fun x y => (h x y).symm)⟩
+
+/-- number of partition objects with `k` blocks -/
+def blk (k : Nat) (l : List (MSet (MSet α))) : Nat := l.countP (fun P => P.members.length == k)
+
+/-- what the outer loop adds, counted by number of blocks: for every partition `P` of the tail one
+partition with one block more and `|P|` partitions with as many blocks as `P` -/
+def expCnt (k : Nat) (todo : List (MSet (MSet α))) : Nat :=
+  (todo.map (fun P => (if P.members.length + 1 = k then 1 else 0) +
+    (if P.members.length = k then P.members.length else 0))).sum
+
+theorem expCnt_zero (todo : List (MSet (MSet α))) : expCnt 0 todo = 0 := by
+  induction todo with
+  | nil => rfl
+  | cons P rest ih =>
+    simp only [expCnt, List.map_cons, List.sum_cons] at ih ⊢
+    rw [ih]
+    by_cases h : P.members.length = 0 <;> simp [h]
+
+theorem expCnt_succ (j : Nat) (todo : List (MSet (MSet α))) :
+    expCnt (j + 1) todo = blk j todo + (j + 1) * blk (j + 1) todo := by
+  induction todo with
+  | nil => simp [expCnt, blk]
+  | cons P rest ih =>
+    simp only [expCnt, List.map_cons, List.sum_cons, blk, List.countP_cons] at ih ⊢
+    rw [ih]
+    by_cases h₁ : P.members.length = j
+    · have h₂ : ¬ P.members.length = j + 1 := by omega
+      simp [h₁, h₂]
+      omega
+    · by_cases h₂ : P.members.length = j + 1
+      · simp [h₁, h₂, Nat.mul_add]
+        omega
+      · simp [h₁, h₂]
 
 section
 variable {sh : Shuffle σ} (hsh : ShLaw sh) {s head : MSet α} (hh : WF0 head) {m0 : α}
@@ -269,13 +348,17 @@ theorem partitionsInner_spec : ∀ (after before : List (MSet α)) (Ps : MSet (M
     (∀ b ∈ before ++ after, WF0 b) → (∀ b ∈ before ++ after, b.members ≠ []) → Disj (before ++ after) →
     (∀ x, x ∈ s.members ↔ x = m0 ∨ ∃ b ∈ before ++ after, x ∈ b.members) →
     (∀ b ∈ before ++ after, m0 ∉ b.members) →
+    (∀ Y ∈ Ps.members, RestrIs m0 Y (before ++ after) →
+      ∀ y, SameBlock Y m0 y → y = m0 ∨ ∃ c ∈ before, y ∈ c.members) →
     ∀ g, ∃ Ps' g', partitionsInner sh head Ps before after g = .ok (Ps', g') ∧ WF2 Ps' ∧ Ps'.impl = Ps.impl ∧
       (∀ Y ∈ Ps.members, Y ∈ Ps'.members) ∧ (∀ Y ∈ Ps'.members, Y ∈ Ps.members ∨ IsPart s Y) ∧
       (∀ a₁ b a₂, after = a₁ ++ b :: a₂ → ∃ Q u, MemR FamEq Q Ps'.members ∧
-          Q.members = (before ++ a₁) ++ u :: a₂ ∧ ∀ x, x ∈ u.members ↔ x = m0 ∨ x ∈ b.members)
-  | [], before, Ps, hPs, _, _, _, _, _, _, g =>
-    ⟨Ps, g, rfl, hPs, rfl, fun _ h => h, fun _ h => .inl h, by simp⟩
-  | b :: after, before, Ps, hPs, himpl, hwf, hne, hdisj, hcover, hm0, g => by
+          Q.members = (before ++ a₁) ++ u :: a₂ ∧ ∀ x, x ∈ u.members ↔ x = m0 ∨ x ∈ b.members) ∧
+      (∃ Qs, Ps'.members = Ps.members ++ Qs ∧ Qs.length = after.length ∧
+        ∀ Q ∈ Qs, Q.members.length = (before ++ after).length ∧ RestrIs m0 Q (before ++ after))
+  | [], before, Ps, hPs, _, _, _, _, _, _, _, g =>
+    ⟨Ps, g, rfl, hPs, rfl, fun _ h => h, fun _ h => .inl h, by simp, [], by simp, rfl, by simp⟩
+  | b :: after, before, Ps, hPs, himpl, hwf, hne, hdisj, hcover, hm0, hcls, g => by
     have hb : b ∈ before ++ b :: after := by simp
     -- head.Union(Pmembers[i])
     obtain ⟨u, g₁, hu, hwu, _, hmu, _⟩ := MSet.union_spec0 hsh hh [b] g
@@ -348,15 +431,73 @@ theorem partitionsInner_spec : ∀ (after before : List (MSet α)) (Ps : MSet (M
             · exact .inl rfl
             · exact .inr ⟨b, hb, hxb⟩
           · exact .inr ⟨c, by simp [hc], hxc⟩
+    -- without m0 the new partition is the old one; the block of m0 in it is m0 together with b
+    have hR : RestrIs m0 Q₃ (before ++ b :: after) := by
+      intro x y
+      constructor
+      · rintro ⟨⟨c, hc, hxc, hyc⟩, hx, hy⟩
+        rw [hQm] at hc
+        rcases List.mem_append.1 hc with hc | hc
+        · exact ⟨c, by simp [hc], hxc, hyc⟩
+        · rcases List.mem_cons.1 hc with rfl | hc
+          · refine ⟨b, hb, ?_, ?_⟩
+            · exact ((hmu' x).1 hxc).resolve_left hx
+            · exact ((hmu' y).1 hyc).resolve_left hy
+          · exact ⟨c, by simp [hc], hxc, hyc⟩
+      · rintro ⟨c, hc, hxc, hyc⟩
+        have hx : x ≠ m0 := fun h => hm0 c hc (h ▸ hxc)
+        have hy : y ≠ m0 := fun h => hm0 c hc (h ▸ hyc)
+        refine ⟨?_, hx, hy⟩
+        rcases List.mem_append.1 hc with hc' | hc'
+        · exact ⟨c, by rw [hQm]; simp [hc'], hxc, hyc⟩
+        · rcases List.mem_cons.1 hc' with rfl | hc'
+          · exact ⟨u, by rw [hQm]; simp, (hmu' x).2 (.inr hxc), (hmu' y).2 (.inr hyc)⟩
+          · exact ⟨c, by rw [hQm]; simp [hc'], hxc, hyc⟩
+    have hC : ∀ y, SameBlock Q₃ m0 y → y = m0 ∨ y ∈ b.members := by
+      rintro y ⟨c, hc, hmc, hyc⟩
+      rw [hQm] at hc
+      rcases List.mem_append.1 hc with hc | hc
+      · exact absurd hmc (hm0 c (by simp [hc]))
+      · rcases List.mem_cons.1 hc with rfl | hc
+        · exact (hmu' y).1 hyc
+        · exact absurd hmc (hm0 c (by simp [hc]))
+    have hnew : ∀ Y ∈ Ps.members, ¬ FamEq Y Q₃ := by
+      intro Y hY hF
+      obtain ⟨y, hy⟩ := List.exists_mem_of_ne_nil _ (hne b hb)
+      have hYm : SameBlock Y m0 y :=
+        (hF.sameBlock m0 y).2 ⟨u, by rw [hQm]; simp, (hmu' m0).2 (.inl rfl), (hmu' y).2 (.inr hy)⟩
+      rcases hcls Y hY (RestrIs.famEq hF hR) y hYm with rfl | ⟨c, hc, hyc⟩
+      · exact hm0 b hb hy
+      · exact hdisj'.2.2 c hc b (List.mem_cons_self ..) y hyc hy
     -- Ps.Add(Q)
-    obtain ⟨Ps₁, hp₁, hpw₁, hpi₁, hkeep₁, hfrom₁, hin₁⟩ := add_partition hPs himpl hqw₃
+    obtain ⟨Ps₁, hp₁, hpw₁, hpi₁, hkeep₁, hfrom₁, hin₁, hnew₁⟩ := add_partition hPs himpl hqw₃
+    have hmem₁ := hnew₁ hnew
     -- the remaining positions
     have hrw : (before ++ [b]) ++ after = before ++ b :: after := by simp
-    obtain ⟨Ps', g', h', hw', hi', hkeep', hfrom', hrep'⟩ :=
+    obtain ⟨Ps', g', h', hw', hi', hkeep', hfrom', hrep', Qs, hQs, hQslen, hQsall⟩ :=
       partitionsInner_spec after (before ++ [b]) Ps₁ hpw₁ (hpi₁.trans himpl)
         (by rw [hrw]; exact hwf) (by rw [hrw]; exact hne) (by rw [hrw]; exact hdisj)
-        (by rw [hrw]; exact hcover) (by rw [hrw]; exact hm0) g₁
-    refine ⟨Ps', g', ?_, hw', hi'.trans hpi₁, fun Y hY => hkeep' Y (hkeep₁ Y hY), ?_, ?_⟩
+        (by rw [hrw]; exact hcover) (by rw [hrw]; exact hm0) (by
+          intro Y hY hRY y hYm
+          rw [hrw] at hRY
+          rw [hmem₁] at hY
+          rcases List.mem_append.1 hY with hY | hY
+          · rcases hcls Y hY hRY y hYm with h | ⟨c, hc, hyc⟩
+            · exact .inl h
+            · exact .inr ⟨c, by simp [hc], hyc⟩
+          · simp at hY; subst hY
+            rcases hC y hYm with h | h
+            · exact .inl h
+            · exact .inr ⟨b, by simp, h⟩) g₁
+    refine ⟨Ps', g', ?_, hw', hi'.trans hpi₁, fun Y hY => hkeep' Y (hkeep₁ Y hY), ?_, ?_,
+      Q₃ :: Qs, by rw [hQs, hmem₁]; simp, by simp [hQslen], ?_⟩
+    rotate_right
+    · intro Q hQ
+      rcases List.mem_cons.1 hQ with rfl | hQ
+      · exact ⟨by rw [hQm]; simp, hR⟩
+      · have := hQsall Q hQ
+        rw [hrw] at this
+        exact this
     · simp [partitionsInner, hq₁, hu, hq₂, hq₃, hp₁, h']
     · intro Y hY
       rcases hfrom' Y hY with hY | hY
@@ -382,14 +523,21 @@ theorem partitionsLoop_spec {tail : MSet α} (hst : ∀ x, x ∈ s.members ↔ x
     (hm0t : m0 ∉ tail.members) :
     ∀ (todo : List (MSet (MSet α))) (Ps : MSet (MSet (MSet α))), WF2 Ps → Ps.impl = .unordered partEqFunc →
     (∀ P ∈ todo, IsPart tail P) →
+    (∀ Y ∈ Ps.members, ∀ P ∈ todo, ¬ RestrIs m0 Y P.members) →
+    todo.Pairwise (fun P P' => ¬ ∀ x y, SameBlock P x y ↔ SameBlock P' x y) →
     ∀ g, ∃ Ps' g', partitionsLoop sh head Ps todo g = .ok (Ps', g') ∧ WF2 Ps' ∧ Ps'.impl = Ps.impl ∧
       (∀ Y ∈ Ps.members, Y ∈ Ps'.members) ∧ (∀ Y ∈ Ps'.members, Y ∈ Ps.members ∨ IsPart s Y) ∧
       (∀ P ∈ todo,
         (∃ Q, MemR FamEq Q Ps'.members ∧ ∃ Pm, Pm.Perm P.members ∧ Q.members = head :: Pm) ∧
         (∀ b ∈ P.members, ∃ Q u a₁ a₂, MemR FamEq Q Ps'.members ∧ (a₁ ++ b :: a₂).Perm P.members ∧
-          Q.members = a₁ ++ u :: a₂ ∧ ∀ x, x ∈ u.members ↔ x = m0 ∨ x ∈ b.members))
-  | [], Ps, hPs, _, _, g => ⟨Ps, g, rfl, hPs, rfl, fun _ h => h, fun _ h => .inl h, by simp⟩
-  | P :: rest, Ps, hPs, himpl, hparts, g => by
+          Q.members = a₁ ++ u :: a₂ ∧ ∀ x, x ∈ u.members ↔ x = m0 ∨ x ∈ b.members)) ∧
+      (∃ New, Ps'.members = Ps.members ++ New ∧
+        (∀ Y ∈ New, ∃ P ∈ todo, RestrIs m0 Y P.members ∧
+          (Y.members.length = P.members.length + 1 ∨ Y.members.length = P.members.length)) ∧
+        ∀ k, blk k New = expCnt k todo)
+  | [], Ps, hPs, _, _, _, _, g =>
+    ⟨Ps, g, rfl, hPs, rfl, fun _ h => h, fun _ h => .inl h, by simp, [], by simp, by simp, fun _ => rfl⟩
+  | P :: rest, Ps, hPs, himpl, hparts, hfresh, hpw, g => by
     have hP := hparts P (List.mem_cons_self ..)
     -- Pmembers := Collect1(P.All())
     obtain ⟨Pm, g₁, hall, hperm, _⟩ := MSet.all_spec hsh P g
@@ -431,18 +579,78 @@ theorem partitionsLoop_spec {tail : MSet α} (hst : ∀ x, x ∈ s.members ↔ x
       intro x
       rw [hPm_cover, hQm]
       simp only [List.mem_cons, exists_eq_or_imp, hhm]
+    have hpw' := List.pairwise_cons.1 hpw
+    -- without m0 the new partition is P; m0 is alone in its block
+    have hR0 : RestrIs m0 Q₂ P.members := by
+      refine RestrIs.perm hperm ?_
+      intro x y
+      constructor
+      · rintro ⟨⟨c, hc, hxc, hyc⟩, hx, _⟩
+        rw [hQm] at hc
+        rcases List.mem_cons.1 hc with rfl | hc
+        · exact absurd ((hhm x).1 hxc) hx
+        · exact ⟨c, hc, hxc, hyc⟩
+      · rintro ⟨c, hc, hxc, hyc⟩
+        exact ⟨⟨c, by rw [hQm]; exact List.mem_cons_of_mem _ hc, hxc, hyc⟩,
+          fun h => hPm_m0 c hc (h ▸ hxc), fun h => hPm_m0 c hc (h ▸ hyc)⟩
+    have hC0 : ∀ y, SameBlock Q₂ m0 y → y = m0 := by
+      rintro y ⟨c, hc, hmc, hyc⟩
+      rw [hQm] at hc
+      rcases List.mem_cons.1 hc with rfl | hc
+      · exact (hhm y).1 hyc
+      · exact absurd hmc (hPm_m0 c hc)
+    have hnew0 : ∀ Y ∈ Ps.members, ¬ FamEq Y Q₂ := fun Y hY hF =>
+      hfresh Y hY P (List.mem_cons_self ..) (RestrIs.famEq hF hR0)
     -- Ps.Add(Q)
-    obtain ⟨Ps₁, hp₁, hpw₁, hpi₁, hkeep₁, hfrom₁, hin₁⟩ := add_partition hPs himpl hqw₂
+    obtain ⟨Ps₁, hp₁, hpw₁, hpi₁, hkeep₁, hfrom₁, hin₁, hnew₁⟩ := add_partition hPs himpl hqw₂
+    have hmem₁ := hnew₁ hnew0
     -- inner loop
-    obtain ⟨Ps₂, g₂, hin, hpw₂, hpi₂, hkeep₂, hfrom₂, hrep₂⟩ :=
+    obtain ⟨Ps₂, g₂, hin, hpw₂, hpi₂, hkeep₂, hfrom₂, hrep₂, Qs, hQs, hQslen, hQsall⟩ :=
       partitionsInner_spec hsh hh hhm Pm [] Ps₁ hpw₁ (hpi₁.trans himpl) (by simpa using hPm_wf)
-        (by simpa using hPm_ne) (by simpa using hPm_disj) (by simpa using hPm_cover) (by simpa using hPm_m0) g₁
+        (by simpa using hPm_ne) (by simpa using hPm_disj) (by simpa using hPm_cover) (by simpa using hPm_m0) (by
+          intro Y hY hRY y hYm
+          simp only [List.nil_append] at hRY
+          rw [hmem₁] at hY
+          rcases List.mem_append.1 hY with hY | hY
+          · exact absurd (RestrIs.perm hperm hRY) (hfresh Y hY P (List.mem_cons_self ..))
+          · simp at hY; subst hY
+            exact .inl (hC0 y hYm)) g₁
+    simp only [List.nil_append] at hQsall
     -- the other partitions
-    obtain ⟨Ps', g', h', hw', hi', hkeep', hfrom', hrep'⟩ :=
+    have hfresh₂ : ∀ Y ∈ Ps₂.members, ∀ P' ∈ rest, ¬ RestrIs m0 Y P'.members := by
+      intro Y hY P' hP' hRY'
+      have hfromP : RestrIs m0 Y P.members → False := by
+        intro hRY
+        exact hpw'.1 P' hP' (fun x y => ((hRY x y).symm.trans (hRY' x y)))
+      rw [hQs, hmem₁] at hY
+      rcases List.mem_append.1 hY with hY | hY
+      · rcases List.mem_append.1 hY with hY | hY
+        · exact hfresh Y hY P' (List.mem_cons_of_mem _ hP') hRY'
+        · simp at hY; subst hY; exact hfromP hR0
+      · exact hfromP (RestrIs.perm hperm (hQsall Y hY).2)
+    obtain ⟨Ps', g', h', hw', hi', hkeep', hfrom', hrep', New, hNew, hNewfrom, hNewcnt⟩ :=
       partitionsLoop_spec hst hm0t rest Ps₂ hpw₂ ((hpi₂.trans hpi₁).trans himpl)
-        (fun P' hP' => hparts P' (List.mem_cons_of_mem _ hP')) g₂
+        (fun P' hP' => hparts P' (List.mem_cons_of_mem _ hP')) hfresh₂ hpw'.2 g₂
+    have hlenPm : Pm.length = P.members.length := hperm.length_eq
     refine ⟨Ps', g', ?_, hw', (hi'.trans hpi₂).trans hpi₁,
-      fun Y hY => hkeep' Y (hkeep₂ Y (hkeep₁ Y hY)), ?_, ?_⟩
+      fun Y hY => hkeep' Y (hkeep₂ Y (hkeep₁ Y hY)), ?_, ?_,
+      Q₂ :: (Qs ++ New), by rw [hNew, hQs, hmem₁]; simp, ?_, ?_⟩
+    rotate_right 2
+    · intro Y hY
+      rcases List.mem_cons.1 hY with rfl | hY
+      · exact ⟨P, List.mem_cons_self .., hR0, .inl (by rw [hQm]; simp [hlenPm])⟩
+      · rcases List.mem_append.1 hY with hY | hY
+        · exact ⟨P, List.mem_cons_self .., RestrIs.perm hperm (hQsall Y hY).2,
+            .inr (by rw [(hQsall Y hY).1, hlenPm])⟩
+        · obtain ⟨P', hP', h⟩ := hNewfrom Y hY
+          exact ⟨P', List.mem_cons_of_mem _ hP', h⟩
+    · intro k
+      have hQ₂len : Q₂.members.length = P.members.length + 1 := by rw [hQm]; simp [hlenPm]
+      have hQscnt := countP_const (fun Q : MSet (MSet α) => Q.members.length) P.members.length k Qs
+        (fun Q hQ => by rw [(hQsall Q hQ).1, hlenPm])
+      simp only [blk, List.countP_cons, List.countP_append, expCnt, List.map_cons, List.sum_cons] at hNewcnt ⊢
+      rw [hQscnt, hNewcnt k, hQ₂len, hQslen, hlenPm]
+      by_cases h₁ : P.members.length + 1 = k <;> by_cases h₂ : P.members.length = k <;> simp [h₁, h₂] <;> omega
     · simp [partitionsLoop, hall, hq₁, hq₂, hp₁, hin, h']
     · intro Y hY
       rcases hfrom' Y hY with hY | hY
@@ -472,6 +680,9 @@ structure PartSpec (s : MSet α) (Ps : MSet (MSet (MSet α))) : Prop where
   sound : ∀ P ∈ Ps.members, IsPart s P
   complete : ∀ F : List (List α), Spec.IsPartition F s.members →
     ∃ P ∈ Ps.members, ∀ x y, SameBlock P x y ↔ SameBlockL F x y
+  /-- the number of partitions with `k` blocks is the Stirling number -/
+  count : ∀ k, blk k Ps.members = Spec.stirling2 s.members.length k
+  blocks_le : ∀ P ∈ Ps.members, P.members.length ≤ s.members.length
 
 theorem partitions_spec {sh : Shuffle σ} (hsh : ShLaw sh) : ∀ (fuel : Nat) (s : MSet α), WF0 s → ∀ g,
     s.members.length < fuel → ∃ Ps g', partitions sh fuel s g = .ok (Ps, g') ∧ PartSpec s Ps
@@ -482,9 +693,23 @@ theorem partitions_spec {sh : Shuffle σ} (hsh : ShLaw sh) : ∀ (fuel : Nat) (s
     · have hnil : s.members = [] := by
         simp only [MSet.size] at hsz
         exact List.eq_nil_of_length_eq_zero (by omega)
-      obtain ⟨Ps, h₁, hw, hi, _, hfrom, ⟨Y, hY, hYQ⟩⟩ :=
+      obtain ⟨Ps, h₁, hw, hi, _, hfrom, ⟨Y, hY, hYQ⟩, hnew⟩ :=
         add_partition wf2_new rfl (Q := MSet.new (.unordered setEqFunc)) wf1_new
-      refine ⟨Ps, g, by simp [hsz, h₁], hw, hi, ?_, ?_⟩
+      have hmem : Ps.members = [MSet.new (.unordered setEqFunc)] := by
+        have := hnew (by simp [MSet.new])
+        simpa [MSet.new] using this
+      refine ⟨Ps, g, by simp [hsz, h₁], hw, hi, ?_, ?_, ?_, ?_⟩
+      rotate_left 2
+      · intro k
+        rw [hmem, hnil]
+        cases k with
+        | zero => simp [blk, MSet.new, Spec.stirling2]
+        | succ k => simp [blk, MSet.new, Spec.stirling2]
+      · intro P hP
+        rw [hmem] at hP
+        simp at hP
+        subst hP
+        simp [MSet.new]
       · intro P hP
         rcases hfrom P hP with hP | rfl
         · simp [MSet.new] at hP
@@ -524,12 +749,36 @@ theorem partitions_spec {sh : Shuffle σ} (hsh : ShLaw sh) : ∀ (fuel : Nat) (s
         simp only [List.length_cons] at hlen
         obtain ⟨sub, g₂, hsub, hspec⟩ := partitions_spec hsh fuel tail htw g₁ (by omega)
         obtain ⟨parts, g₃, hall, hperm, _⟩ := MSet.all_spec hsh sub g₂
-        obtain ⟨Ps, g₄, hloop, hw, hi, _, hfrom, hrep⟩ :=
+        have hparts_pw : parts.Pairwise (fun P P' => ¬ ∀ x y, SameBlock P x y ↔ SameBlock P' x y) := by
+          have hpw : parts.Pairwise (fun P P' => ¬ FamEq P P') :=
+            (hperm.pairwise_iff (fun h h' => h (famEq_equivalence.symm h'))).2 hspec.wf.nodup
+          refine List.Pairwise.imp_of_mem ?_ hpw
+          intro P P' hP hP' hne hsame
+          exact hne (famEq_of_sameBlock (hspec.sound P (hperm.subset hP)) (hspec.sound P' (hperm.subset hP')) hsame)
+        obtain ⟨Ps, g₄, hloop, hw, hi, _, hfrom, hrep, New, hNew, hNewfrom, hNewcnt⟩ :=
           partitionsLoop_spec hsh hhw hhm' (s := s) (tail := tail)
             (fun x => by rw [hmem_s, htm']) (fun h => hnd'.1 ((htm' m0).1 h))
             parts (MSet.new (.unordered partEqFunc)) wf2_new rfl
-            (fun P hP => hspec.sound P (hperm.subset hP)) g₃
-        refine ⟨Ps, g₄, ?_, hw, hi, ?_, ?_⟩
+            (fun P hP => hspec.sound P (hperm.subset hP)) (by simp [MSet.new]) hparts_pw g₃
+        have hPsm : Ps.members = New := by simpa [MSet.new] using hNew
+        refine ⟨Ps, g₄, ?_, hw, hi, ?_, ?_, ?_, ?_⟩
+        rotate_left 3
+        · intro k
+          rw [hPsm, hNewcnt k, ← hlen]
+          have hblk : ∀ j, blk j parts = Spec.stirling2 ms.length j := by
+            intro j
+            rw [← htlen, ← hspec.count j]
+            exact hperm.countP_eq _
+          cases k with
+          | zero => rw [expCnt_zero]; simp [Spec.stirling2]
+          | succ j => rw [expCnt_succ, hblk, hblk]; simp [Spec.stirling2]
+        · intro Y hY
+          rw [hPsm] at hY
+          obtain ⟨P, hP, _, hlenY⟩ := hNewfrom Y hY
+          have := hspec.blocks_le P (hperm.subset hP)
+          rw [htlen] at this
+          rw [← hlen]
+          omega
         · simp only [hsz, ↓reduceIte, ha, ok_bind]
           simp only [MSet.add_singleton, hh₁, ht₁, hsub, hall, ok_bind]
           exact hloop
